@@ -236,6 +236,9 @@ func execOp(rig *Rig, o Op) Outcome {
 		}
 	case "archive":
 		mt := time.Unix(1600000000+int64(o.DSeed%100000), 0)
+		if o.Mt != 0 {
+			mt = time.Unix(o.Mt, 0)
+		}
 		var ms []config.FileConfig
 		for _, m := range o.Members {
 			if m.K == "dir" {
@@ -249,6 +252,9 @@ func execOp(rig *Rig, o Op) Outcome {
 		}
 	case "update":
 		mt := time.Unix(1600000000+int64(o.DSeed%100000), 0)
+		if o.Mt != 0 {
+			mt = time.Unix(o.Mt, 0)
+		}
 		if _, err := rig.WOps.Update(membersSrc([]config.FileConfig{fileMember(o.A, o.content(), os.FileMode(o.Perm), mt)}), rig.Cfg.Level, true, false); err != nil {
 			return failOut("update", err)
 		}
